@@ -129,7 +129,9 @@ def average_coverage(
     if len(platforms) == 0:
         return float("nan")
 
-    total = sum([coverage(setmap, [p]) for p in platforms])
+    # Sum in sorted order: a float sum taken in set-iteration order can differ
+    # in its last bits from run to run (and flip the printed value).
+    total = sum([coverage(setmap, [p]) for p in sorted(platforms)])
     return total / len(platforms)
 
 
